@@ -25,6 +25,46 @@ Theorem C17_set_result_once :
 Proof. exact sets_at_most_once. Qed.
 Print Assumptions C17_set_result_once.
 
+(* ... and exactly once in every quiescent state (no label enabled): each submit() call was
+   either rejected (never delivered, no process) or its waiter holds the result that
+   solve_low_level derives from the future, delivered exactly once, and no process of it
+   runs; every shutdown() call has ended (returned, or raised: see F15 below) *)
+Theorem C17_exactly_once_quiescent :
+  forall tmos waits sched st,
+    run (init tmos waits) sched = Some st -> (forall l, step st l = None) ->
+    (forall j jb, nth_error (jobs st) j = Some jb ->
+       (spc jb = SRejected /\ wpc jb = WNew /\ deliveries j sched = 0 /\ proc jb = PNone) \/
+       (spc jb = SGot (low_level jb) /\ wpc jb = WDone /\ deliveries j sched = 1 /\ proc jb <> PRun)) /\
+    (forall k s, nth_error (sds st) k = Some s -> dpc s = DDone \/ dpc s = DRaised).
+Proof. exact quiescent_exactly_once. Qed.
+Print Assumptions C17_exactly_once_quiescent.
+
+(* deadlock-freedom: in every reachable state in which some submitter has neither been
+   rejected nor obtained its result, or some shutdown() call has not ended, a label is enabled *)
+Theorem C17_no_deadlock :
+  forall tmos waits sched st,
+    run (init tmos waits) sched = Some st ->
+    (exists j jb, nth_error (jobs st) j = Some jb /\ spc jb <> SRejected /\ (forall v, spc jb <> SGot v)) \/
+    (exists k s, nth_error (sds st) k = Some s /\ dpc s <> DDone /\ dpc s <> DRaised) ->
+    exists l st', step st l = Some st'.
+Proof. exact no_deadlock_run. Qed.
+Print Assumptions C17_no_deadlock.
+
+(* waiting always returns: every run extends to a quiescent state (and every schedule is
+   finite, C17_schedules_bounded, so every maximal schedule is such an extension); there every
+   waiter has returned with exactly one delivery *)
+Theorem C17_wait_returns :
+  forall tmos waits sched st,
+    run (init tmos waits) sched = Some st ->
+    exists ext st',
+      run (init tmos waits) (sched ++ ext) = Some st' /\ (forall l, step st' l = None) /\
+      (forall j jb, nth_error (jobs st') j = Some jb ->
+         (spc jb = SRejected /\ deliveries j (sched ++ ext) = 0) \/
+         (spc jb = SGot (low_level jb) /\ deliveries j (sched ++ ext) = 1)) /\
+      (forall k s, nth_error (sds st') k = Some s -> dpc s = DDone \/ dpc s = DRaised).
+Proof. exact wait_returns. Qed.
+Print Assumptions C17_wait_returns.
+
 (* a job that exceeded its time limit carries TimeoutExpired, and what its waiter
    (solve_low_level) reports is unknown -- never unsat *)
 Theorem C17_timeout_unknown :
